@@ -333,6 +333,8 @@ class Particle(Structure):
                     iy = 0.
                 if((ix*ix + iy*iy) > 4.0):
                     raise ValueError("Passed (ix, iy) coordinates are not valid, squared sum exceeds 4.")
+                if((h*h + k*k) >= 1.0):
+                    raise ValueError("Passed (h, k) coordinates are not valid, squared sum (the eccentricity squared) must be smaller than 1.")
                 clibrebound.reb_particle_from_pal.restype = Particle
                 p = clibrebound.reb_particle_from_pal(c_double(simulation.G), primary, c_double(self.m), c_double(a), c_double(l), c_double(k), c_double(h), c_double(ix), c_double(iy))
             else:
